@@ -339,6 +339,7 @@ def rule_forall_key(db: ProgramDB) -> List[Instance]:
         raise AnalysisError("ForAll has no _required_variables_from_child_")
     # follow super() calls along the MRO collecting `if child is self.<side>: required.update(self.<other>._unique_variables_)`
     adds: Set[Tuple[str, str]] = set()
+    conditional: List[Tuple[str, str]] = []
     seen = set()
 
     def scan(fn):
@@ -350,6 +351,32 @@ def rule_forall_key(db: ProgramDB) -> List[Instance]:
                 t = unparse(n.test)
                 for side in ("left", "right", "condition", "variable"):
                     if f"child is self.{side}" in t or f"self.{side} is child" in t:
+                        # … for EVERY truth the asking node can have (True, False, 'not known yet'): the guard depends on nothing but who asks
+                        from ..boolexpr import eval_bool
+                        import itertools as _it
+                        others: List[str] = []
+
+                        def _atom(e, side=side):
+                            u = unparse(e)
+                            if u in (f"child is self.{side}", f"self.{side} is child"):
+                                return "WHO"
+                            if isinstance(e, (ast.Name, ast.Attribute, ast.Compare, ast.Call)):
+                                if u not in others:
+                                    others.append(u)
+                                return u
+                            return None
+
+                        class _Any(dict):
+                            def __missing__(self, k):
+                                return True
+                        try:
+                            eval_bool(n.test, _atom, _Any())
+                            always = all(bool(eval_bool(n.test, _atom, dict(zip(others, vals), WHO=True))) for vals in _it.product([False, True], repeat=len(others)))
+                        except AnalysisError:
+                            always = False
+                        if not always:
+                            conditional.append((side, unparse(n.test)))
+                            continue
                         for c in ast.walk(ast.Module(body=n.body, type_ignores=[])):
                             if isinstance(c, ast.Call) and call_attr(c) in ("update", "add", "union"):
                                 for a in c.args:
@@ -384,7 +411,9 @@ def rule_forall_key(db: ProgramDB) -> List[Instance]:
                     f"ForAll requires from its condition only what its ancestors require (effective implementation "
                     f"{m.short} adds {sorted(adds_n)}): the universal variable is not part of the duplicate-suppression key, "
                     f"so when the condition suppresses duplicates itself (a disjunction) a row seen for one universal value "
-                    f"is dropped for the next and falls out of the intersection"))
+                    f"is dropped for the next and falls out of the intersection" +
+                    (f" (the additions under `{conditional[0][1]}` do not count: they depend on more than on who asks - an and_ inside the condition asks with "
+                     f"'truth not known yet', and for that the key is left without the universal variable)" if conditional else "")))
     return out
 
 
